@@ -75,9 +75,13 @@ impl Property for C11 {
         // size regime: more than 16 / 32 groups, rows and distinct values
         let large = rng.chance(if thorough { 15 } else { 4 }, 100);
         if large {
-            lc.keys = rng.range(18, 45) as usize;
+            // many groups, or few groups with many values each
+            lc.keys = if rng.chance(1, 2) { rng.range(18, 45) as usize } else { rng.range(1, 2) as usize };
             lc.n_range = *rng.pick(&[10, 40, 1000]);
             lc.null_pct = *rng.pick(&[0, 10]);
+        }
+        if rng.chance(1, 5) {
+            lc.zero_pct = *rng.pick(&[20, 50]);
         }
         let with_join = rng.chance(1, 6);
         let query = if rng.chance(1, 3) {
@@ -99,7 +103,7 @@ impl Property for C11 {
             }
             q
         };
-        let n_lines = if large { rng.range(18, if thorough { 70 } else { 44 }) as usize } else { rng.range(1, 12) as usize };
+        let n_lines = if large { rng.range(18, if thorough { 90 } else { 50 }) as usize } else { rng.range(1, 12) as usize };
         let noise_pct = *rng.pick(&[0, 10, 30]);
         let mut lines: Vec<Vec<u8>> = Vec::new();
         for _ in 0..n_lines {
@@ -133,6 +137,9 @@ impl Property for C11 {
             "lines": enc_list(&lines),
             "format": rng.pick(&["text", "json", "json"]),
             "follow": query.join.is_none() && rng.chance(1, 2),
+            // follow run: this many bytes already exist when following starts with --head (may end in mid-line)
+            "init_cut": if rng.chance(1, 3) { rng.below(content.len() + 1) } else { 0 },
+            "poll_ms": *rng.pick(&[0u64, 0, 0, 0, 0, 1, 1000, 60_000]),
             "cuts": cuts,
             "steps": steps_to_json(&steps),
             "read_mode": read_mode_to_json(&gen::gen_read_mode(rng)),
@@ -147,6 +154,8 @@ impl Property for C11 {
         bool_field(case, "follow", false, &mut out);
         array_field(case, "cuts", &mut out);
         steps_field(case, "steps", &mut out);
+        num_field(case, "init_cut", 0, &mut out);
+        num_field(case, "poll_ms", 0, &mut out);
         set_field(case, "read_mode", json!("bulk"), &mut out);
         set_field(case, "format", json!("text"), &mut out);
         out
@@ -244,6 +253,8 @@ impl Property for C11 {
         out.probe("distinct_having", (upper.contains("DISTINCT ") && upper.contains(" HAVING ")) as u64);
         out.probe("l1_error_agreed", l1_failed_at.is_some() as u64);
         out.probe("large_more_than_16_lines", (n > 16) as u64);
+        out.probe("large_more_than_32_lines", (n > 32) as u64);
+        out.probe("signed_zero_values", lines.iter().any(|l| l.windows(4).any(|w| w == b"-0.0")) as u64);
         out.probe("large_table_more_than_16_rows", batch.iter().any(|(_, r)| r.len() > 16) as u64);
         out.probe("wrapped_aggregate", (stmt.contains(") * 2") || stmt.contains(") + 1") || stmt.contains(") - 1")) as u64);
 
@@ -252,13 +263,16 @@ impl Property for C11 {
         if jbool(case, "follow") && l1_failed_at.is_none() && joined.is_none() {
             let content = gen::join_lines(&lines, true);
             let mut f = WorldSpec::new(&defs, &stmt, Mode::FollowExec { head: true });
-            f.files.push((FOLLOW_PATH.to_owned(), Vec::new()));
-            f.appends = gen::cut_chunks(&content, &jusizes(case, "cuts"));
+            let init_cut = jusize(case, "init_cut", 0).min(content.len());
+            f.files.push((FOLLOW_PATH.to_owned(), content[..init_cut].to_vec()));
+            f.appends = gen::cut_chunks(&content[init_cut..], &jusizes(case, "cuts"));
+            out.probe("l2_preexisting_content_ends_mid_line", (init_cut > 0 && content[init_cut - 1] != b'\n') as u64);
             f.steps = steps_from_json(case, "steps");
             f.read_mode = read_mode_from_json(case, "read_mode");
             f.end_after_idle = Some(2);
             f.format = format.clone();
             f.event_budget = 4000 + 4 * content.len();
+            f.poll_cost_ns = jusize(case, "poll_ms", 0) as u64 * 1_000_000;
             let res = run(&mut out, "L2 FollowFileExecutor", &f, want_trace);
             if !usable(&mut out, "c11", &res, &features) {
                 return out;
